@@ -8,23 +8,26 @@ import (
 	"flag"
 	"fmt"
 	"os"
+	"os/exec"
+	"runtime"
+	"runtime/pprof"
 	"sort"
 	"sync"
 	"syscall"
 )
 
 type Summary struct {
-	Scenarios   int            `json:"scenarios"`
-	Traces      int            `json:"traces"`
-	Steps       int            `json:"steps"`
-	NonTrivial  int            `json:"distinct_nontrivial"`
-	Stats       map[string]int `json:"stats"`
-	Violations  []Violation    `json:"violations"`
-	Samples     [][]string     `json:"samples"`
-	Shards      []string       `json:"shards"`
-	TraceNames  []string       `json:"trace_names"`
-	ByKind      map[string]int `json:"scenarios_by_kind"`
-	ShardOps    map[string][][]string `json:"shard_ops"`
+	Scenarios  int                   `json:"scenarios"`
+	Traces     int                   `json:"traces"`
+	Steps      int                   `json:"steps"`
+	NonTrivial int                   `json:"distinct_nontrivial"`
+	Stats      map[string]int        `json:"stats"`
+	Violations []Violation           `json:"violations"`
+	Samples    [][]string            `json:"samples"`
+	Shards     []string              `json:"shards"`
+	TraceNames []string              `json:"trace_names"`
+	ByKind     map[string]int        `json:"scenarios_by_kind"`
+	ShardOps   map[string][][]string `json:"shard_ops"`
 }
 
 type job struct {
@@ -39,6 +42,8 @@ func main() {
 	outDir := flag.String("out", ".", "directory for cases_<k>.v and summary.json")
 	shards := flag.Int("shards", 16, "")
 	only := flag.String("only", "", "run only this scenario kind")
+	chunk := flag.String("chunk", "", "internal: run jobs lo:hi and write their outputs as JSON to -raw")
+	raw := flag.String("raw", "", "internal")
 	flag.Parse()
 	// badger logs to stderr at INFO: silence it
 	if dn, err := os.OpenFile("/dev/null", os.O_WRONLY, 0); err == nil {
@@ -66,17 +71,76 @@ func main() {
 	}
 	outs := make([]ScenarioOut, len(jobs))
 	var wg sync.WaitGroup
-	sem := make(chan struct{}, 12)
-	for i, j := range jobs {
+	// A closed ledger's three badger stores stay referenced by their GC goroutine until its next 5-minute tick
+	// (src/accountant/storage.go), ~40 MB each: a process that creates thousands of ledgers does not fit in memory.
+	// So the jobs run in child processes of at most chunkSize jobs; their memory goes away with them.
+	const chunkSize = 40
+	if *chunk != "" {
+		var lo, hi int
+		fmt.Sscanf(*chunk, "%d:%d", &lo, &hi)
+		sem := make(chan struct{}, 3)
+		for i := lo; i < hi && i < len(jobs); i++ {
+			wg.Add(1)
+			sem <- struct{}{}
+			go func(i int) {
+				defer wg.Done()
+				defer func() { <-sem }()
+				outs[i] = runJob(*seed, jobs[i])
+			}(i)
+		}
+		wg.Wait()
+		b, _ := json.Marshal(outs[lo:min(hi, len(jobs))])
+		if err := os.WriteFile(*raw, b, 0644); err != nil {
+			fmt.Println(err)
+			os.Exit(3)
+		}
+		return
+	}
+	var chunkErr error
+	var emu sync.Mutex
+	sem := make(chan struct{}, 5)
+	for lo := 0; lo < len(jobs); lo += chunkSize {
 		wg.Add(1)
 		sem <- struct{}{}
-		go func(i int, j job) {
+		go func(lo int) {
 			defer wg.Done()
 			defer func() { <-sem }()
-			outs[i] = runJob(*seed, j)
-		}(i, j)
+			hi := min(lo+chunkSize, len(jobs))
+			rawf := fmt.Sprintf("%s/.chunk_%d.json", *outDir, lo)
+			cmd := exec.Command(os.Args[0], "-tier", *tier, "-seed", fmt.Sprint(*seed), "-out", *outDir, "-only", *only, "-chunk", fmt.Sprintf("%d:%d", lo, hi), "-raw", rawf)
+			cmd.Dir = *outDir
+			outb, err := cmd.CombinedOutput()
+			var part []ScenarioOut
+			if err == nil {
+				var b []byte
+				if b, err = os.ReadFile(rawf); err == nil {
+					err = json.Unmarshal(b, &part)
+				}
+			}
+			os.Remove(rawf)
+			if err != nil || len(part) != hi-lo {
+				emu.Lock()
+				chunkErr = fmt.Errorf("chunk %d:%d failed: %v %s", lo, hi, err, string(outb[max(0, len(outb)-400):]))
+				emu.Unlock()
+				return
+			}
+			copy(outs[lo:hi], part)
+		}(lo)
 	}
 	wg.Wait()
+	if chunkErr != nil {
+		fmt.Println(chunkErr)
+		os.Exit(3)
+	}
+	if mp := os.Getenv("VERIF_MEMPROF"); mp != "" {
+		if f, err := os.Create(mp); err == nil {
+			pprof.WriteHeapProfile(f)
+			f.Close()
+		}
+		var ms runtime.MemStats
+		runtime.ReadMemStats(&ms)
+		fmt.Printf("heap_alloc=%dMB heap_sys=%dMB goroutines=%d\n", ms.HeapAlloc>>20, ms.HeapSys>>20, runtime.NumGoroutine())
+	}
 	sum := Summary{Stats: map[string]int{}, ByKind: map[string]int{}}
 	seen := map[string]bool{}
 	shardTraces := make([][]string, *shards)
